@@ -47,6 +47,11 @@ unsigned g_shutdowns; vgid_t g_shutdown_last;
 extern unsigned g_relproc_calls; extern int g_order_ok;
 #define GHOST_WAIT_HOOK(h) do { if (g_relproc_calls != 1) g_order_ok = 0; } while (0)
 EbFifo *g_shut_fifo;
+#ifdef C23_L3_GETEMPTY
+__CPROVER_size_t g_first_at_lock, g_first_at_unlock;
+#define GHOST_LOCK_HOOK(h) do { g_first_at_lock = (__CPROVER_size_t)g_shut_fifo->first_ptr; } while (0)
+#define GHOST_UNLOCK_HOOK(h) do { g_first_at_unlock = (__CPROVER_size_t)g_shut_fifo->first_ptr; } while (0)
+#endif
 #ifdef C23_L3_SHUTDOWN
 #define GHOST_POST_HOOK(h) do { if (!(g_shut_fifo->quit_signal == EB_TRUE && g_nheld == 0)) g_order_ok = 0; } while (0)
 #endif
